@@ -93,6 +93,12 @@ def namespace():
     import pandas as pd
     ns = {k: v for k, v in vars(specref).items() if not k.startswith("_")}
     ns.update(np=np, pd=pd)
+    try:
+        import igraph
+        import scipy.cluster.hierarchy as hc
+        ns.update(igraph=igraph, hc=hc, os=os)
+    except ImportError:
+        pass
     from replay import scopes
     ns.update(getattr(scopes, "SPEC_EXTRA", {}))
 
